@@ -29,7 +29,7 @@ type JNode struct {
 
 var jsonKeys = []string{"ok?", "2026", "a", "b", "c", "id", "name", "zz", "A", "", "a.b", "0", "1", "a b", "é", "q\"uote", "back\\slash", "x*y", "p?q", "h#", "at@", "pi|pe", "new\nline", "tab\t", "<tag>", "日本", "k10", "k9", "_", "-", "$", "$", "idToken", "a:b", "x/y", "k1"}
 
-var jsonStrings = []string{"value of type map[string]interface {}", "[]interface {}", "a\\/b", "^\\/api\\/v\\d+$", "http:\\/\\/x", "\\", "", "a", "hello world", "é", "日本語", "\U0001F600", "q\"uote", "back\\slash", "sl/ash", "<b>&amp;</b>", "line\nbreak", "tab\there", "\u0001", " ", "---", "[TestA - 1]", "null", "1", "a long long long long long long string value here", " "}
+var jsonStrings = []string{"{}", "[]", "{\"id\":1}", "[1]", "value of type map[string]interface {}", "[]interface {}", "a\\/b", "^\\/api\\/v\\d+$", "http:\\/\\/x", "\\", "", "a", "hello world", "é", "日本語", "\U0001F600", "q\"uote", "back\\slash", "sl/ash", "<b>&amp;</b>", "line\nbreak", "tab\there", "\u0001", " ", "---", "[TestA - 1]", "null", "1", "a long long long long long long string value here", " "}
 
 var jsonNums = []string{"0", "-0", "1", "-1", "10", "1.5", "1.50", "-2.25", "1e3", "1E+2", "1e-7", "0.0", "123456789012345678901234567890", "1.7976931348623157e308", "5e-324", "0.1", "100", "3.14159", "9007199254740993", "1085941723411234817", "-9223372036854775808"}
 
